@@ -163,6 +163,14 @@ def fp_array(a):
     return [kind, list(a.shape), int(mask.sum()), h]
 
 
+def fp_values(a):
+    """Shape, number of missing values and a hash of the VALUES (as float64), whatever the data type."""
+    a = np.ma.asanyarray(a)
+    mask = np.ma.getmaskarray(a)
+    vals = np.ascontiguousarray(np.where(mask, 0, a.data).astype("f8")).tobytes()
+    return [list(a.shape), int(mask.sum()), hashlib.sha1(vals + np.ascontiguousarray(mask).tobytes()).hexdigest()[:16]]
+
+
 def fp_props(x):
     out = {}
     for k, v in sorted(x.properties().items()):
@@ -597,7 +605,8 @@ def raw_values(path):
             if var.dtype is str or var.dtype.kind not in "iuf":
                 continue
             try:
-                out[prefix + name] = fp_array(var[...])
+                a = var[...]
+                out[prefix + name] = fp_array(a) + [fp_values(a)]
             except Exception:
                 pass
         for gn, gg in g.groups.items():
@@ -671,9 +680,15 @@ def do_read(p):
                 for f in fields:
                     for label, ncvar, d in data_objects(f):
                         if ncvar in rawv and not d.get_compression_type() and list(d.shape) == rawv[ncvar][1]:
-                            got = fp_array(d.array)
+                            a = d.array
+                            got = fp_array(a) + [fp_values(a)]
                             exp = rawv[ncvar]
-                            if got[1:] != exp[1:] or (got[0] != exp[0] and not c["spec"].get("packed")):
+                            # (netCDF4-python leaves the stored type when the scale is one and the offset zero, and has
+                            #  its own idea of the unpacked type: for packed datasets the values are compared)
+                            if c["spec"].get("packed"):
+                                if got[4] != exp[4]:
+                                    bad.append([ncvar, got, exp])
+                            elif got[:4] != exp[:4]:
                                 bad.append([ncvar, got, exp])
                 per[name]["raw_mismatch"] = bad
                 take_log()
